@@ -25,15 +25,17 @@ Print Assumptions C07_roundtrip_abstract.
 
 (* The SP's own published metadata, re-parsed, is sufficient registration: the
    request the SP builds is routed to the SP's ACS URL over HTTP-POST, and the
-   encryption decision finds the SP's certificate exactly when one is configured. *)
+   encryption decision finds the SP's certificate exactly when an RSA certificate
+   is configured (an SP on an ECDSA key is answered unencrypted: fix F18). *)
 Theorem C07_sp_metadata_registers :
   forall sp cert id issue dest cp,
     exists d e,
       get_acs_endpoint (sp_metadata sp cert) (sp_request sp id issue dest) = Some (0, 0, d, e) /\
       ep_location e = sp_acs sp /\ ep_binding e = post_binding /\
       In d (descriptors (sp_metadata sp cert)) /\
-      (sp_key sp = None -> enc_decision cp (kds d) = Plain) /\
-      (forall k, sp_key sp = Some k -> cert <> "" -> cp cert = CertRsaKey k -> enc_decision cp (kds d) = EncryptTo k).
+      (sp_key sp = None \/ sp_key_rsa sp = false -> enc_decision cp (kds d) = Plain) /\
+      (forall k, sp_key sp = Some k -> sp_key_rsa sp = true -> cert <> "" -> cp cert = CertRsaKey k ->
+                 enc_decision cp (kds d) = EncryptTo k).
 Proof. exact sp_metadata_registers. Qed.
 Print Assumptions C07_sp_metadata_registers.
 
@@ -80,6 +82,7 @@ Print Assumptions C07_roundtrip_bytes.
 
 Theorem C07_monitor_holds_of_model :
   forall s,
+    session_clean s = true ->
     c07_spec {| c7_sess := s;
                 c7_accepted := match c07_expect s with Some _ => true | None => false end;
                 c7_nameid := match c07_expect s with Some (n, _) => n | None => "" end;
